@@ -152,7 +152,7 @@ static int hist_core(const case_t *c, int emit)
     jo_int("n", n); jo_int("nnz", H.G.nnz);
     char dig[1024]; dig[0] = 0; size_t dl = 0;
     char infos[512]; infos[0] = 0; size_t il = 0;
-    int_t *retired[64]; int nretired = 0; long pp_moves = 0;
+    int_t *retired[64]; int nretired = 0; long pp_moves = 0, sing_refact = 0;
     long nops = 0, nfact = 0, nrefact = 0, nsolve = 0, usepr_kept = 0, usepr_changed = 0, usepr_undec = 0, inbuf_checked = 0, queries = 0;
     size_t heap_after_rep[8]; long live_after_rep[8]; int nrepdone = 0;
     int opi = 0, stop = 0;
@@ -173,10 +173,11 @@ static int hist_core(const case_t *c, int emit)
             while (*p == ',') ++p;
             int nprocs = nplist[opi % nnp]; ++opi; ++nops;
             char key[96];
-            if (op == 'F' || op == 'R' || op == 'Q' || op == 'X' || op == 'P') {
+            if (op == 'F' || op == 'R' || op == 'Q' || op == 'X' || op == 'P' || op == 'Y') {
                 /* P: the factors are destroyed and the matrix (new values) is factored from scratch (refact = NO) while the caller asks
                    for the previous row permutation to be kept (usepr = YES): the two options are independent */
-                int refact = (op == 'R');
+                /* Y: a refactorization (Y1: with re-use of the previous row pivots) of new values in which one column is exactly zero */
+                int refact = (op == 'R' || op == 'Y');
                 if ((refact || op == 'P') && !H.have_lu) continue;             /* nothing to refactor / no previous pivots */
                 if (!refact && H.have_lu) destroy_factors(&H);   /* a first factorization starts from scratch */
                 int usepr = refact ? arg : (op == 'P');
@@ -188,7 +189,14 @@ static int hist_core(const case_t *c, int emit)
                     saved = xmalloc((len + 1) * sizeof(elem_t));
                     memcpy(saved, H.G.val + H.G.colptr[zc], len * sizeof(elem_t));
                     for (int_t q = H.G.colptr[zc]; q < H.G.colptr[zc + 1]; ++q) H.G.val[q] = MKE(0, 0);
-                } else if (refact) { ++H.valgen; new_values(&H, seed, H.valgen, usepr && (H.valgen % 2 == 0), (int)cint(c, "zeropiv", 0)); }
+                } else if (refact) { ++H.valgen; new_values(&H, seed, H.valgen, usepr && (H.valgen % 2 == 0), op == 'Y' ? 0 : (int)cint(c, "zeropiv", 0)); }
+                if (op == 'Y') {
+                    zc = (int_t)rng_int(&rng, n);
+                    int_t len = H.G.colptr[zc + 1] - H.G.colptr[zc];
+                    saved = xmalloc((len + 1) * sizeof(elem_t));
+                    memcpy(saved, H.G.val + H.G.colptr[zc], len * sizeof(elem_t));
+                    for (int_t q = H.G.colptr[zc]; q < H.G.colptr[zc + 1]; ++q) H.G.val[q] = MKE(0, 0);
+                }
                 long lwork = 0; void *work = NULL;
                 if (op == 'Q') lwork = -1;
                 else if (refact) { lwork = H.lwork; work = H.work; }
@@ -199,8 +207,9 @@ static int hist_core(const case_t *c, int emit)
                             Gstat_t gs; superlumt_options_t o2; SuperMatrix AC2, L2, U2; int_t inf2 = 0;
                             int_t *pc2 = xmalloc((n + 1) * sizeof(int_t)), *pr2 = xmalloc((n + 1) * sizeof(int_t));
                             get_perm_c(ord, &H.A, pc2);
-                            StatAlloc(n, nprocs, w, relax, &gs); StatInit(n, nprocs, &gs);
-                            GSTRF_INIT(nprocs, DOFACT, NOTRANS, NO, w, relax, H.u, NO, 0.0, pc2, pr2, NULL, -1, &H.A, &AC2, &o2, &gs);
+                            int qnp = cint(c, "qnp", 0) > 0 ? (int)cint(c, "qnp", 0) : nprocs;      /* qnp: the caller sized the buffer for another thread count */
+                            StatAlloc(n, qnp, w, relax, &gs); StatInit(n, qnp, &gs);
+                            GSTRF_INIT(qnp, DOFACT, NOTRANS, NO, w, relax, H.u, NO, 0.0, pc2, pr2, NULL, -1, &H.A, &AC2, &o2, &gs);
                             GSTRF(&o2, &AC2, pr2, &L2, &U2, &gs, &inf2);
                             est_bytes = inf2 > n ? (long)inf2 - n : 0;
                             pxgstrf_finalize(&o2, &AC2); StatFree(&gs); free(pc2); free(pr2);
@@ -250,6 +259,17 @@ static int hist_core(const case_t *c, int emit)
                     if (memcmp(&H.L, &Lsent, sizeof Lsent) || memcmp(&H.U, &Usent, sizeof Usent)) jo_fail("C14|query-side-effect", "lwork = -1 wrote to L or U");
                     if (!(info > n)) { jo_fail("C14|query-size", "lwork = -1 returned info = %ld (n = %ld): not a positive size estimate", (long)info, (long)n); }
                     pxgstrf_finalize(&H.opt, &H.AC); H.have_ac = 0; H.have_opt = 0;
+                    continue;
+                }
+                if (op == 'Y') {
+                    memcpy(H.G.val + H.G.colptr[zc], saved, (H.G.colptr[zc + 1] - H.G.colptr[zc]) * sizeof(elem_t));
+                    free(saved);
+                    long want = (long)H.perm_c[zc] + 1;
+                    if (!(info > 0 && info <= n)) jo_fail("C06|singular-not-reported", "history op Y%d (refactorization%s): column %ld is exactly zero but info = %ld", arg, usepr ? ", row pivots re-used" : "", (long)zc, (long)info);
+                    else if (info != want) jo_fail("C06|wrong-index", "history op Y%d (refactorization%s): info = %ld but the all-zero column sits at position %ld of A*Pc", arg, usepr ? ", row pivots re-used" : "", (long)info, want);
+                    else ++sing_refact;
+                    if (info >= 0 && info <= n) { H.have_lu = 1; walk_LU(&H.L, &H.U, n, "C06|factors"); destroy_factors(&H); }
+                    else { pxgstrf_finalize(&H.opt, &H.AC); H.have_ac = 0; H.have_opt = 0; H.have_lu = 0; }
                     continue;
                 }
                 if (op == 'X') {
@@ -454,7 +474,7 @@ static int hist_core(const case_t *c, int emit)
     int tasks_end = count_tasks_settled(tasks_start);
     jo_str("infos", infos); jo_str("digest", dig);
     jo_int("work_allocs", work_allocs); jo_int("nops", nops); jo_int("nfact", nfact); jo_int("nrefact", nrefact); jo_int("nsolve", nsolve); jo_int("queries", queries);
-    jo_int("pp_moves", pp_moves); jo_int("usepr_kept", usepr_kept); jo_int("usepr_changed", usepr_changed); jo_int("usepr_undec", usepr_undec); jo_int("inbuf_checked", inbuf_checked);
+    jo_int("pp_moves", pp_moves); jo_int("sing_refact", sing_refact); jo_int("usepr_kept", usepr_kept); jo_int("usepr_changed", usepr_changed); jo_int("usepr_undec", usepr_undec); jo_int("inbuf_checked", inbuf_checked);
     jo_int("allocs", sluv_alloc_count()); jo_int("alloc_failed", nfailed_allocs); jo_int("est_bytes", est_bytes);
     if (tasks_end != tasks_start && !HX_TSAN) jo_fail("C17|thread-left", "thread count %d at start, %d at end of the history", tasks_start, tasks_end);
     if (cint(c, "leakcheck", 0) && nrepdone >= 3) {
